@@ -102,10 +102,14 @@ type c17Case struct {
 	// the wrong type (a number for a switch, a list for a number or a text): whatever becomes of THAT setting, every
 	// other setting of the file still counts
 	BadFile []int `json:"bad_file,omitempty"`
+	// CommentKB > 0: the file carries that many KiB of comment and blank lines (a commented template of a configuration,
+	// a generated file with a long licence header); CommentAt: 0 = before the settings, 1 = between them, 2 = after them
+	CommentKB int `json:"comment_kb,omitempty"`
+	CommentAt int `json:"comment_at,omitempty"`
 }
 
 const c17Rule = "case = 1..8 settings from the 45-entry table (yaml key, flag name, VFLOW_* variable, kind, default; transcribed from docs/config.md and NewOptions), each given by a random non-empty subset of " +
-	"{environment, configuration file (-config <file>, placed before, between or after the other flags; the path plain, a symbolic link to the file, through a linked directory, with . and .. components, or relative to the working directory as a bare file name or ./name), command line} with distinct valid values (ports/sizes/worker counts in range, booleans, strings incl. ones needing YAML quoting; a source may also pin the built-in default value), optionally -sflow-type-filter a,b,c (in a third of those cases as two occurrences of the flag: every listed type is in the effective filter); " +
+	"{environment, configuration file (-config <file>, placed before, between or after the other flags; the path plain, a symbolic link to the file, through a linked directory, with . and .. components, or relative to the working directory as a bare file name or ./name), command line} with distinct valid values (ports/sizes/worker counts in range, booleans, strings incl. ones needing YAML quoting; a source may also pin the built-in default value), in a tenth of the cases the file also carries 1..300 KiB of comment and blank lines before, between or after the settings; optionally -sflow-type-filter a,b,c (in a third of those cases as two occurrences of the flag: every listed type is in the effective filter); " +
 	"executed by the real option loading (environment, YAML file, flags) in the package-main driver; oracle = effective value is the command line's, else the file's, else the environment's, else the default; untouched settings keep their defaults; " +
 	"the filter option parses to [a,b,c]; non-trivial = some setting has >= 2 sources; distinct by hash"
 
@@ -118,6 +122,10 @@ func genC17(t *rapid.T) c17Case {
 	c.EqForm = rapid.Bool().Draw(t, "eqform")
 	c.ConfigPos = rapid.SampledFrom([]int{0, 0, 1, 2, 99}).Draw(t, "configpos")
 	c.ConfigVia = rapid.SampledFrom([]string{"", "", "", "symlink", "symlink", "dirlink", "unclean", "bare", "bare", "relative"}).Draw(t, "configvia")
+	if rapid.IntRange(0, 9).Draw(t, "commented") == 0 {
+		c.CommentKB = rapid.SampledFrom([]int{1, 3, 63, 64, 65, 70, 130, 300}).Draw(t, "commentkb")
+		c.CommentAt = rapid.IntRange(0, 2).Draw(t, "commentat")
+	}
 	n := rapid.IntRange(1, 8).Draw(t, "nkeys")
 	perm := rapid.Permutation(intRange(len(c17Table))).Draw(t, "keys")
 	for _, idx := range perm[:n] {
@@ -303,6 +311,18 @@ func runC17(c *c17Case) (v verdict, sig string, err error) {
 	}
 	if len(cfg) > 0 {
 		sort.Strings(cfg)
+		if c.CommentKB > 0 && c.CommentKB <= 1024 {
+			var cm []string
+			for n, i := 0, 0; n < c.CommentKB<<10; i++ {
+				l := []string{"# vflow configuration - see docs/config.md for every key and its default", "", "#   ipfix-port: 4739   (commented out: the default applies)", "# ---------------------------------------------------------------------------"}[i%4]
+				cm = append(cm, l)
+				n += len(l) + 1
+			}
+			at := map[int]int{0: 0, 1: len(cfg) / 2, 2: len(cfg)}[c.CommentAt%3]
+			cfg = append(append(append([]string{}, cfg[:at]...), cm...), cfg[at:]...)
+			v.label(true, "config-file-with-comments")
+			v.label(c.CommentKB >= 64, "config-file>=64KiB")
+		}
 		text := strings.Join(cfg, "\n") + "\n"
 		req.Config = &text
 		switch c.ConfigVia {
